@@ -411,13 +411,52 @@ Proof.
   rewrite !E. unfold mk_view. rewrite !sort_by_key_filter, !filter_hand_app. reflexivity.
 Qed.
 
+(* no generated file in the directory declares a type the subcommand would select (enum, rest: never the case) *)
+Definition no_eligible_gen (sc : subcmd) (disk : gfiles) : Prop := forall e, In e disk -> eligible_gen sc (snd e) = [].
+
+Lemma eligible_gen_enum_rest : forall sc a, sc = CEnum \/ sc = CRest -> eligible_gen sc a = [].
+Proof.
+  intros sc a H. unfold eligible_gen. induction (a_decls a) as [|d l IH]; [reflexivity|].
+  cbn. rewrite IH. destruct H as [-> | ->]; destruct (d_kind d); reflexivity.
+Qed.
+
+Lemma list_types_of_filter_hand : forall sc (v : view),
+  (forall n a, In (n, FGen a) v -> eligible_gen sc a = []) ->
+  list_types_of sc v = list_types_of sc (filter is_hand v).
+Proof.
+  intros sc. unfold list_types_of. induction v as [|[n fc] v IH]; intros H; [reflexivity|].
+  destruct fc as [h|a]; simpl.
+  - rewrite IH; [reflexivity|]. intros n' a' Hin. eapply H. right. exact Hin.
+  - rewrite (H n a) by (left; reflexivity). simpl. apply IH. intros n' a' Hin. eapply H. right. exact Hin.
+Qed.
+
+Lemma in_mk_view_gen : forall hw disk n a, In (n, FGen a) (mk_view hw disk []) -> In (n, a) disk.
+Proof.
+  intros hw disk n a H. unfold mk_view in H.
+  assert (Hp : Permutation (sort_by_key fst (map (fun h : hfile => (h_name h, FHand h)) hw ++ map (fun e : string * afile => (fst e, FGen (snd e))) (overlay_apply disk [])))
+                           (map (fun h : hfile => (h_name h, FHand h)) hw ++ map (fun e : string * afile => (fst e, FGen (snd e))) (overlay_apply disk []))).
+  { unfold sort_by_key. apply isort_perm. }
+  apply (Permutation_in _ Hp) in H. apply in_app_or in H. destruct H as [H|H].
+  - apply in_map_iff in H. destruct H as [h [E _]]. discriminate.
+  - apply in_map_iff in H. destruct H as [[k v] [E Hin]]. cbn in E. injection E as -> ->. exact Hin.
+Qed.
+
 Lemma list_types_of_disk : forall sc c hw disk,
+  no_eligible_gen sc disk ->
   list_types_of sc (filter (fun f => (c_file c =? "") || (fst f =? c_file c)) (mk_view hw disk [])) =
   list_types_of sc (filter (fun f => (c_file c =? "") || (fst f =? c_file c)) (mk_view hw [] [])).
 Proof.
-  intros. unfold list_types_of.
-  pose proof (hand_decls_filter_name (fun n => (c_file c =? "") || (n =? c_file c)) hw disk) as E.
-  cbv beta in E. unfold vfile in E. rewrite E. reflexivity.
+  intros sc c hw disk Hne.
+  rewrite (list_types_of_filter_hand sc (filter _ (mk_view hw disk []))).
+  - rewrite (list_types_of_filter_hand sc (filter _ (mk_view hw [] []))).
+    + assert (E : forall v : view, filter is_hand (filter (fun f : string * fcontent => (c_file c =? "") || (fst f =? c_file c)) v) =
+                                   filter (fun f : string * fcontent => (c_file c =? "") || (fst f =? c_file c)) (filter is_hand v)).
+      { induction v as [|x v IH]; simpl; auto.
+        destruct ((c_file c =? "") || (fst x =? c_file c)) eqn:Q; destruct (is_hand x) eqn:Hh; simpl; rewrite ?Q, ?Hh, IH; auto. }
+      rewrite !E. unfold mk_view. rewrite !sort_by_key_filter, !filter_hand_app. reflexivity.
+    + intros n a Hin. apply filter_In in Hin. destruct Hin as [Hin _]. apply in_mk_view_gen in Hin. destruct Hin.
+  - intros n a Hin. apply filter_In in Hin. destruct Hin as [Hin _]. apply in_mk_view_gen in Hin.
+    apply (Hne (n, a)). exact Hin.
 Qed.
 
 Lemma confirm_unspecified : forall sc c o v, specified c = false ->
@@ -435,13 +474,14 @@ Section BlindHistory.
 
   Lemma generate_blind_history : forall sc c, specified c = false ->
     forall o1 o2 disk1 disk2 st1 st2,
+      no_eligible_gen sc disk1 -> no_eligible_gen sc disk2 ->
       generate make render (list_types_of sc) c o1 hw disk1 st1 =
       generate make render (list_types_of sc) c o2 hw disk2 st2.
   Proof.
-    intros sc c Hs o1 o2 disk1 disk2 st1 st2.
+    intros sc c Hs o1 o2 disk1 disk2 st1 st2 Hn1 Hn2.
     rewrite (generate_blind make render Hmake hw Hblind (list_types_of sc) c o1 st1 disk1 st1).
     rewrite (generate_blind make render Hmake hw Hblind (list_types_of sc) c o2 st1 disk2 st2).
-    rewrite !confirm_unspecified by auto. rewrite (list_types_of_disk sc c hw disk1), (list_types_of_disk sc c hw disk2).
+    rewrite !confirm_unspecified by auto. rewrite (list_types_of_disk sc c hw disk1 Hn1), (list_types_of_disk sc c hw disk2 Hn2).
     reflexivity.
   Qed.
 End BlindHistory.
